@@ -105,6 +105,7 @@ type Interp struct {
 
 	concrete map[string]*big.Int // concrete mode: supplied nondet values
 	models   []*cachedModel
+	poolFree map[string][]Value
 	fixedMask uint64
 	substMemo map[int]*Term
 
